@@ -252,6 +252,9 @@ func (s *SIP) DecodeFromBytes(data []byte, df gopacket.DecodeFeedback) error {
 	var offset int
 	var eoh = false // track End Of Headers
 
+	// a re-used layer object starts from the state NewSIP gives
+	*s = *NewSIP()
+
 	// Iterate on all lines of the SIP Headers
 	// and stop when we reach the SDP (aka when the new line
 	// is at index 0 of the remaining packet)
